@@ -209,11 +209,11 @@ def generic_expected(case):
 # ------------------------------------------------------------------ overload matrix family (own small model)
 
 OV_TYPES = ["int", "long", "float", "string", "boolean", "bit", "char", "int[]", "long[]", "float[]", "string[]", "boolean[]",
-            "bit[]", "char[]", "P", "Q"]
+            "bit[]", "char[]", "P", "Q", "P2"]
 OV_VARS = {"int": ("vi", "7"), "long": ("vl", "8L"), "float": ("vf", "1.5f"), "string": ("vs", '"s"'), "boolean": ("vb", "true"),
            "bit": ("vt", "1b"), "char": ("vc", "'c'"), "int[]": ("ai", "{1, 2}"), "long[]": ("al", "{1L}"), "float[]": ("af", "{1.0f}"),
            "string[]": ("as", '{"a"}'), "boolean[]": ("ab", "{true}"), "bit[]": ("at", "{1b, 0b}"), "char[]": ("ac", "{'a'}"),
-           "P": ("vp", "new P()"), "Q": ("vq", "new Q()")}
+           "P": ("vp", "new P()"), "Q": ("vq", "new Q()"), "P2": ("vp2", "new P2()")}
 
 
 @st.composite
@@ -246,7 +246,10 @@ def overload_case(draw):
         if dyn < lo:
             dyn = lo
         stat = draw(st.integers(lo, dyn))
-        calls.append({"sig": i, "dyn": dyn, "stat": stat, "relay": use_relay})
+        # a relay whose parameter is declared P may be handed a P2 (subclass) value: inside the relay the parameter's static type
+        # is still P, so the overload taking P must run even when one taking P2 exists
+        sub = use_relay and "P" in sg["params"] and draw(st.booleans())
+        calls.append({"sig": i, "dyn": dyn, "stat": stat, "relay": use_relay, "sub": sub})
     # some levels are generic classes (type parameter E, unused by the overloads): their method tables are built by the
     # separate instantiation path of the run time
     gen = [draw(st.integers(0, 2)) == 0 for _ in range(depth)]
@@ -259,7 +262,8 @@ def _ov_label(level, params):
 
 def overload_program(case):
     gen = case.get("generic") or [False] * case["depth"]
-    out = ["class P { public constructor() -> P { return this; } }", "class Q { public constructor() -> Q { return this; } }"]
+    out = ["class P { public constructor() -> P { return this; } }", "class Q { public constructor() -> Q { return this; } }",
+           "class P2 extends P { public constructor() -> P2 { super(); return this; } }"]
 
     def tname(lv):  # the type as written in main
         return f"K{lv}" + ("<int>" if gen[lv] else "")
@@ -285,7 +289,7 @@ def overload_program(case):
     main = [f"{t} {v} = {init};" for t, (v, init) in OV_VARS.items()]
     for n, c in enumerate(case["calls"]):
         sg = case["sigs"][c["sig"]]
-        args = ", ".join(OV_VARS[t][0] for t in sg["params"])
+        args = ", ".join(("vp2" if (c.get("sub") and t == "P") else OV_VARS[t][0]) for t in sg["params"])
         name = f"r{c['sig']}" if c["relay"] else "m"
         # a generic instantiation converts to no other type in the analyser (recorded finding generic-base-args): a reference
         # to an object of a generic class is declared with exactly that type; base-typed dispatch then goes through relays
@@ -331,7 +335,8 @@ class C08(Check):
             same_arity = any(a != b and len(a) == len(b) for a in kinds for b in kinds)
             stats.record(case, same_arity and len(case["calls"]) >= 2,
                          tags=["overload_family"] + (["overload_generic_level"] if any(case.get("generic") or []) else []) + (["overload_override"] if any(sg["override"] is not None for sg in case["sigs"]) else [])
-                         + (["overload_relay"] if any(c["relay"] for c in case["calls"]) else []),
+                         + (["overload_relay"] if any(c["relay"] for c in case["calls"]) else [])
+                         + (["relay_gets_subclass_value"] if any(c.get("sub") for c in case["calls"]) else []),
                          sample={"source": src, "expected": want} if len(src) < 2600 else None)
         if r.diag and r.diag["cat"] in ("Lexical", "Parse", "Semantic"):
             return {"why": f"overload program rejected: {r.diag}", "source": src}
